@@ -80,6 +80,9 @@ type c19In struct {
 	WordLists                  [][]byte // bitword words of Strs[i] for width c19Widths[i%4]
 	TB                         *bitmap.TailBitmap
 	Longs                      [][]uint64 // bitmaps whose lengths sit around powers of two (index builders)
+	Pos                        []int32
+	Subs                       [][]int32
+	Sizes                      []int32
 }
 
 var c19Widths = []int{1, 2, 4, 8}
@@ -349,6 +352,9 @@ func c19Build(k int, al alloc) *c19In {
 		}
 		in.Longs = append(in.Longs, al.u64s(lw))
 	}
+	in.Pos = al.i32s([]int32{0, 1, 63, 64, 65, int32(100 + k), 191})
+	in.Subs = [][]int32{al.i32s([]int32{0, 63}), al.i32s([]int32{}), al.i32s([]int32{1, 64, int32(65 + k)})}
+	in.Sizes = al.i32s([]int32{64, 3, 130})
 	tb := bitmap.NewTailBitmap(64)
 	for _, j := range []int64{64, 65, 66, 130, 191, 200, 300, 5} {
 		tb.Set(j + int64(k))
@@ -421,6 +427,13 @@ func c19Alphabet() []c19Call {
 		{"bitmap.IndexSelect32", longs, func(in *c19In, k int) interface{} { return pr(bitmap.IndexSelect32(long(in, k))) }, false},
 		{"bitmap.IndexSelect32R64", longs, func(in *c19In, k int) interface{} { a, b := bitmap.IndexSelect32R64(long(in, k)); return pr(a, b) }, false},
 		{"bitmap.Join", func(*c19In) int { return 7 }, func(in *c19In, k int) interface{} { return pr(bitmap.Join(in.Vals, int32(1)<<uint(k))) }, false},
+		{"bitmap.Fmt", func(in *c19In) int { return len(in.W) }, func(in *c19In, k int) interface{} { return bitmap.Fmt(in.W[:k+1]) }, false},
+		{"bitmap.Of", func(in *c19In) int { return len(in.Pos) }, func(in *c19In, k int) interface{} { return pr(bitmap.Of(in.Pos[:k+1], int32(70*k))) }, false},
+		{"bitmap.OfMany", func(*c19In) int { return 3 }, func(in *c19In, k int) interface{} { return pr(bitmap.OfMany(in.Subs[:k+1], in.Sizes[:k+1])) }, false},
+		{"bmtree.Height/PathLen/PathHeight/PathBits/PathMask", func(in *c19In) int { return len(in.Nodes) }, func(in *c19In, k int) interface{} {
+			p := in.Nodes[k]
+			return pr(bmtree.Height(in.Mask), bmtree.PathLen(p), bmtree.PathHeight(p), bmtree.PathBits(p), bmtree.PathMask(p))
+		}, false},
 		{"bmtree.PathToIndex", func(in *c19In) int { return len(in.Stored) }, func(in *c19In, k int) interface{} { return pr(bmtree.PathToIndex(in.Mask, in.Stored[k])) }, true},
 		{"bmtree.PathToIndexLoose", func(in *c19In) int { return len(in.Nodes) }, func(in *c19In, k int) interface{} {
 			a, b := bmtree.PathToIndexLoose(in.Mask, in.Nodes[k])
